@@ -37,8 +37,8 @@ def complete_returns(rec):
         xfrom = []
         for i, pl in enumerate(rec.pts.arrays):
             xi, yi = pl
-            if xi.size < lb.size:
-                continue
+            if xi.size != lb.size + len(oracle.slack_rows(prob)) or yi.size != int(prob.num_cons):
+                continue      # an iterate of another problem of the same group
             rx, ry = oracle.restore(prob, scal, xi, yi)
             if rx.shape == x.shape and ry.shape == y.shape and rx.tobytes() == np.asarray(x, dtype=rx.dtype).tobytes() \
                     and ry.tobytes() == np.asarray(y, dtype=ry.dtype).tobytes():
